@@ -47,7 +47,7 @@ def box(name):
         return dict(fam=B(3, 'x', (2, 2, 2), (2, 2, 1), render='tok', mods=mods), alpha='x', lexers=('basic', 'dynamic'))
     if base == 'eb':        # EBNF bodies (optional items, [..] with placeholders) around a prioritised helper competing with rule b.1
         helpers = [((families.X,),), ((families.X, ('maybe', ((families.Y,),))),), ((families.X, ('opt', families.Y)),), ((('maybe', ((families.X,),)), families.Y),)]
-        return dict(fam=families.EBNF(2, helpers=helpers, helper_prio=PRIOS[spec[1]], start_alts=(((('ref', 'b'),), None), ((('ref', 'b'), ('ref', 'b')), None))),
+        return dict(fam=families.EBNF(1 if spec.endswith('/1') else 2, helpers=helpers, helper_prio=PRIOS[spec[1]], start_alts=(((('ref', 'b'),), None), ((('ref', 'b'), ('ref', 'b')), None))),
                     alpha='xy', lexers=('basic', 'dynamic'))
     if base == 'tp':
         tprio = {'0': 0, '1': 1, 'm': -1}
@@ -74,6 +74,7 @@ def _tiers():
     for a in '1m':
         t.append(('x2/sna%s' % a, 2, 4))
     for a in '2m':
+        q.append(('eb/a%s/1' % a, 1, 3))    # one-item bodies: complete
         q.append(('eb/a%s' % a, 8, 3))
         t.append(('eb/a%s' % a, 1, 4))
     return {'quick': q, 'thorough': t}
